@@ -84,7 +84,8 @@ func main() {
 		}
 		// pre-pass: unexported struct fields of this package that are maps wherever they are declared
 		fieldKinds := map[string][2]int{} // name -> {map declarations, other declarations}
-		chanKinds := map[string][2]int{}  // name -> {declarations as a channel, other declarations}
+		ptrKeyed := map[string]bool{}
+		chanKinds := map[string][2]int{} // name -> {declarations as a channel, other declarations}
 		for name := range names {
 			if !strings.HasSuffix(name, ".go") || strings.HasSuffix(name, "_test.go") {
 				continue
@@ -170,6 +171,12 @@ func main() {
 					// version, pointers have no stable order)
 					isMap := false
 					if mt, ok := fld.Type.(*ast.MapType); ok {
+						if _, ok := mt.Key.(*ast.StarExpr); ok {
+							isMap = true // iterated in insertion order (vsched.Note / vsched.Keys)
+							for _, id := range fld.Names {
+								ptrKeyed[id.Name] = true
+							}
+						}
 						if id, ok := mt.Key.(*ast.Ident); ok {
 							switch id.Name {
 							case "string", "int", "int32", "int64", "uint", "uint32", "uint64":
@@ -197,9 +204,13 @@ func main() {
 			}
 		}
 		mapFields = map[string]bool{}
+		ptrMapFields = map[string]bool{}
 		for name, k := range fieldKinds {
 			if k[0] > 0 && k[1] == 0 && !ast.IsExported(name) {
 				mapFields[name] = true
+				if ptrKeyed[name] {
+					ptrMapFields[name] = true
+				}
 			}
 		}
 		for name := range names {
@@ -250,6 +261,9 @@ var chanNames map[string]bool
 // mapFields: unexported struct fields of the package being rewritten that are maps in every
 // declaration; `for k, v := range x.f` over such a field is given a deterministic order.
 var mapFields map[string]bool
+
+// ptrMapFields: the subset of mapFields whose key is a pointer; insertions are announced.
+var ptrMapFields map[string]bool
 
 type rewriter struct {
 	fset    *token.FileSet
@@ -473,7 +487,16 @@ func (r *rewriter) stmt(s ast.Stmt) []ast.Stmt {
 		for _, e := range x.Rhs {
 			r.expr(e, &recvs)
 		}
-		return append(r.recvStmts(recvs), x)
+		pre := r.recvStmts(recvs)
+		if len(x.Lhs) == 1 && x.Tok == token.ASSIGN {
+			if ie, ok := x.Lhs[0].(*ast.IndexExpr); ok {
+				if se, ok := ie.X.(*ast.SelectorExpr); ok && ptrMapFields[se.Sel.Name] && pureOperand(ie.Index) {
+					pre = append(pre, &ast.ExprStmt{X: call("Note", ie.Index)})
+					r.used, r.changed = true, true
+				}
+			}
+		}
+		return append(pre, x)
 	case *ast.ReturnStmt:
 		var recvs []ast.Expr
 		for _, e := range x.Results {
